@@ -163,7 +163,7 @@ def phase_of(tok):
     return {"x": "exit", "e": "entry", "t": "transition", "c": "content", "l": "log", "r": "raise", "s": "send"}.get(tok[0] if tok else "", "order")
 
 
-def refine(root, plan, res, tag="i0", fail_elems=None, max_units=100000, variant=()):
+def refine(root, plan, res, tag="i0", fail_elems=None, max_units=100000, variant=(), fail_occ=None):
     """-> (violations, info).  Rules: C01.<phase> on the first divergence."""
     v = []
     info = {"units": 0, "microsteps": 0, "events": 0, "finished": False}
@@ -171,7 +171,7 @@ def refine(root, plan, res, tag="i0", fail_elems=None, max_units=100000, variant
     bind = Bindings(lines)
     units = parse_units(lines, tag, bind)
     try:
-        m = Model(root, fail_elems, variant)
+        m = Model(root, fail_elems, variant, fail_occ=fail_occ)
     except ModelError as e:
         return [("HARNESS", "model cannot load chart: %s" % e)], info
     harness = []
